@@ -50,6 +50,130 @@ def base_var(e):
     return None
 
 
+def static_inventory(ck, prog, config, clause, unit_filter=None):
+    """every object with static storage duration in the library units: const, never written, written only by the
+    logging setters - or a finding"""
+    statics = [g for g in prog.globals if prog.is_lib_unit(g.unit) and not g.extern and
+               (unit_filter is None or unit_filter(g.unit))]
+    by_decl = {}
+    by_name = {}
+    for g in statics:
+        by_decl[g.declid] = g
+        if not g.static:
+            by_name[g.name] = g
+    writes = {}   # static key -> list of (fn, line, how)
+    for fn in prog.lib_funcs():
+        local_ids = set(fn.locals.keys()) | set(p.decl for p in fn.params)
+
+        def lookup(v):
+            if v is None or v.k != 'var' or v.dk != 'VarDecl':
+                return None
+            if v.decl in by_decl:
+                return by_decl[v.decl]
+            if v.decl not in local_ids and v.op in by_name:
+                return by_name[v.op]
+            # file-scope statics referenced through a different redeclaration id
+            if v.decl not in local_ids:
+                for g in statics:
+                    if g.name == v.op and g.unit == fn.unit and g.func is None:
+                        return g
+            return None
+        # the address of a static stored in a pointer (local or field): later writes go through the alias
+        from ..ir import walk_stmts
+        stores = []
+        for st_ in walk_stmts(fn.body):
+            if st_.k == 'decl' and st_.var is not None and st_.e is not None and \
+                    (st_.var.t or '').rstrip().endswith('*') and 'const' not in (st_.var.t or '').split('*')[0]:
+                stores.append((st_.e, st_.line, 'local pointer %s' % st_.var.op))
+        for ex in all_exprs(fn):
+            for n in walk(ex):
+                if n.k == 'bin' and n.op == '=' and (strip(n.a[0]).t or '').rstrip().endswith('*') and \
+                        'const' not in (strip(n.a[0]).t or '').split('*')[0]:
+                    stores.append((n.a[1], n.line, show(n.a[0])[:30]))
+        for e_, line_, what_ in stores:
+            for x in walk(e_):
+                g = None
+                if x.k == 'un' and x.op == '&':
+                    g = lookup(base_var(x.a[0]))
+                elif x.k == 'var':
+                    g = lookup(x)
+                    if g is not None and not (g.type or '').rstrip().endswith(']'):
+                        g = None
+                if g is not None and not g.const:
+                    writes.setdefault(id(g), []).append((fn, line_, 'its address is stored in %s (writes through the alias)' % what_))
+        for ex in all_exprs(fn):
+            for n in walk(ex):
+                if n.k == 'bin' and is_assign_op(n.op):
+                    g = lookup(base_var(n.a[0]))
+                    if g is not None:
+                        writes.setdefault(id(g), []).append((fn, n.line, 'assignment %s' % show(n)[:60]))
+                elif n.k == 'un' and n.op in ('++', '--'):
+                    g = lookup(base_var(n.a[0]))
+                    if g is not None:
+                        writes.setdefault(id(g), []).append((fn, n.line, 'increment %s' % show(n)[:60]))
+                elif n.k == 'call':
+                    name = callee_name(n)
+                    ro = READ_ONLY_ARGS.get(name, 'unknown')
+                    if ro is None:
+                        continue
+                    fs, exs = prog.call_targets(fn, n)
+                    for i, a in enumerate(n.a[1:]):
+                        g = lookup(base_var(a))
+                        if g is None:
+                            continue
+                        sa = strip(a)
+                        # passing the *value* of a scalar static is a read
+                        if sa.k == 'var' and not (g.type or '').rstrip().endswith((']', '*')):
+                            continue
+                        if sa.k in ('mem', 'idx') and not (sa.t or '').rstrip().endswith((']', '*')):
+                            continue
+                        if (g.type or '').rstrip().endswith('*') and sa.k == 'var':
+                            # pointer-valued static passed by value: the pointee, not the static, may be written
+                            continue
+                        if ro != 'unknown' and i in ro:
+                            continue
+                        # parameter declared pointer-to-const?
+                        const_param = False
+                        for t in fs:
+                            if i < len(t.params) and 'const' in (t.params[i].t or '').split('*')[0]:
+                                const_param = True
+                        if const_param:
+                            continue
+                        writes.setdefault(id(g), []).append(
+                            (fn, n.line, 'passed to %s() as writable argument %d' % (name or show(n.a[0]), i + 1)))
+    for g in statics:
+        where = '%s%s' % (rel(g.unit), ('::' + g.func) if g.func else '')
+        inst = '%s::%s' % (where, g.name)
+        if g.const:
+            ck.ob(clause, 'R7.static-inventory', where, inst, True, 'const object (%s)' % g.type,
+                  g.file, g.line, config=config,
+                  sample={'object': inst, 'type': g.type, 'class': 'const', 'writes': 0})
+            continue
+        ws = writes.get(id(g), [])
+        bad = [(fn, line, how) for fn, line, how in ws if fn.name not in LOG_SETTERS]
+        if not ws:
+            ck.ob(clause, 'R7.static-inventory', where, inst, True,
+                  'mutable type (%s) but never written in the library' % g.type, g.file, g.line, config=config,
+                  sample={'object': inst, 'type': g.type, 'class': 'mutable, no writer', 'writes': 0})
+            continue
+        if not bad:
+            ck.ob(clause, 'R7.static-inventory', where, inst, True,
+                  'written only by logging setters: %s' % ', '.join(sorted(set(f.name for f, _, _ in ws))),
+                  g.file, g.line, config=config,
+                  sample={'object': inst, 'type': g.type, 'class': 'mutable, logging configuration',
+                          'writers': sorted(set(f.name for f, _, _ in ws))})
+            continue
+        seen = set()
+        for fn, line, how in bad:
+            if fn.name in seen:
+                continue
+            seen.add(fn.name)
+            ck.ob(clause, 'R7.static-write', fn.name, inst, False,
+                  'mutable object with static storage %s (%s) is written by %s (%s): shared between every '
+                  'context in the process' % (inst, g.type, fn.name, how), fn.file, line, config=config)
+    return len(statics)
+
+
 def run(ctx):
     ck = ctx.check
     ck.explanation = (
@@ -62,103 +186,9 @@ def run(ctx):
         'result equality with the serial run are not decided.')
     ck.declined += ['races inside zstd / OpenSSL / libc', 'equality of results with the serial run']
     total_statics = 0
-    for config in ctx.configs():
+    for config in sorted(set(ctx.configs()) | set(['bundled-hash'])):
         prog = ctx.prog(config)
-        statics = [g for g in prog.globals if prog.is_lib_unit(g.unit) and not g.extern]
-        total_statics = max(total_statics, len(statics))
-        by_decl = {}
-        by_name = {}
-        for g in statics:
-            by_decl[g.declid] = g
-            if not g.static:
-                by_name[g.name] = g
-        writes = {}   # static key -> list of (fn, line, how)
-        for fn in prog.lib_funcs():
-            local_ids = set(fn.locals.keys()) | set(p.decl for p in fn.params)
-
-            def lookup(v):
-                if v is None or v.k != 'var' or v.dk != 'VarDecl':
-                    return None
-                if v.decl in by_decl:
-                    return by_decl[v.decl]
-                if v.decl not in local_ids and v.op in by_name:
-                    return by_name[v.op]
-                # file-scope statics referenced through a different redeclaration id
-                if v.decl not in local_ids:
-                    for g in statics:
-                        if g.name == v.op and g.unit == fn.unit and g.func is None:
-                            return g
-                return None
-            for ex in all_exprs(fn):
-                for n in walk(ex):
-                    if n.k == 'bin' and is_assign_op(n.op):
-                        g = lookup(base_var(n.a[0]))
-                        if g is not None:
-                            writes.setdefault(id(g), []).append((fn, n.line, 'assignment %s' % show(n)[:60]))
-                    elif n.k == 'un' and n.op in ('++', '--'):
-                        g = lookup(base_var(n.a[0]))
-                        if g is not None:
-                            writes.setdefault(id(g), []).append((fn, n.line, 'increment %s' % show(n)[:60]))
-                    elif n.k == 'call':
-                        name = callee_name(n)
-                        ro = READ_ONLY_ARGS.get(name, 'unknown')
-                        if ro is None:
-                            continue
-                        fs, exs = prog.call_targets(fn, n)
-                        for i, a in enumerate(n.a[1:]):
-                            g = lookup(base_var(a))
-                            if g is None:
-                                continue
-                            sa = strip(a)
-                            # passing the *value* of a scalar static is a read
-                            if sa.k == 'var' and not (g.type or '').rstrip().endswith((']', '*')):
-                                continue
-                            if sa.k in ('mem', 'idx') and not (sa.t or '').rstrip().endswith((']', '*')):
-                                continue
-                            if (g.type or '').rstrip().endswith('*') and sa.k == 'var':
-                                # pointer-valued static passed by value: the pointee, not the static, may be written
-                                continue
-                            if ro != 'unknown' and i in ro:
-                                continue
-                            # parameter declared pointer-to-const?
-                            const_param = False
-                            for t in fs:
-                                if i < len(t.params) and 'const' in (t.params[i].t or '').split('*')[0]:
-                                    const_param = True
-                            if const_param:
-                                continue
-                            writes.setdefault(id(g), []).append(
-                                (fn, n.line, 'passed to %s() as writable argument %d' % (name or show(n.a[0]), i + 1)))
-        for g in statics:
-            where = '%s%s' % (rel(g.unit), ('::' + g.func) if g.func else '')
-            inst = '%s::%s' % (where, g.name)
-            if g.const:
-                ck.ob('C19-a', 'R7.static-inventory', where, inst, True, 'const object (%s)' % g.type,
-                      g.file, g.line, config=config,
-                      sample={'object': inst, 'type': g.type, 'class': 'const', 'writes': 0})
-                continue
-            ws = writes.get(id(g), [])
-            bad = [(fn, line, how) for fn, line, how in ws if fn.name not in LOG_SETTERS]
-            if not ws:
-                ck.ob('C19-a', 'R7.static-inventory', where, inst, True,
-                      'mutable type (%s) but never written in the library' % g.type, g.file, g.line, config=config,
-                      sample={'object': inst, 'type': g.type, 'class': 'mutable, no writer', 'writes': 0})
-                continue
-            if not bad:
-                ck.ob('C19-a', 'R7.static-inventory', where, inst, True,
-                      'written only by logging setters: %s' % ', '.join(sorted(set(f.name for f, _, _ in ws))),
-                      g.file, g.line, config=config,
-                      sample={'object': inst, 'type': g.type, 'class': 'mutable, logging configuration',
-                              'writers': sorted(set(f.name for f, _, _ in ws))})
-                continue
-            seen = set()
-            for fn, line, how in bad:
-                if fn.name in seen:
-                    continue
-                seen.add(fn.name)
-                ck.ob('C19-a', 'R7.static-write', fn.name, inst, False,
-                      'mutable object with static storage %s (%s) is written by %s (%s): shared between every '
-                      'context in the process' % (inst, g.type, fn.name, how), fn.file, line, config=config)
+        total_statics = max(total_statics, static_inventory(ck, prog, config, 'C19-a'))
         # deny-list
         denied = 0
         sites = 0
